@@ -172,7 +172,10 @@ func c10(c *Ctx) {
 		// function slide must come from the function table, variable slide from the variable table (kind agreement)
 		if lookupCall != nil {
 			cal := staticCallee(lookupCall.Common())
-			isFuncObj := !strings.Contains(rtObj, "stub") && func() bool { _, ok := p.SSA.ImportedPackage(Mod + "/" + uxPkg).Members[lastDot(rtObj)].(*ssa.Function); return ok }()
+			isFuncObj := !strings.Contains(rtObj, "stub") && func() bool {
+				_, ok := p.SSA.ImportedPackage(Mod + "/" + uxPkg).Members[lastDot(rtObj)].(*ssa.Function)
+				return ok
+			}()
 			wantFunc := isFuncLookup(cal)
 			slideIsFunc[g] = isFuncObj
 			r.Check(isFuncObj == wantFunc, "C10.R2", cons+" table kind", p.Pos(posOf(lookupCall)), "function anchor from the function table / variable anchor from the symbol table", "the anchor is looked up in the wrong table (function vs variable)")
